@@ -123,6 +123,30 @@ class Sym:
     def text(self, expr: ast.AST, at_idx: int, depth: int = 8) -> str:
         return norm(self.value(expr, at_idx, depth))
 
+    def attr_store(self, chain: str, before_idx: int) -> Optional[Tuple[int, ast.AST]]:
+        """(step index, inlined value) of the last plain assignment `chain = value` before before_idx on this path"""
+        found = None
+        for idx, (nid, lab) in enumerate(self.path.steps):
+            if idx >= before_idx:
+                break
+            n = self.path.cfg.nodes[nid]
+            if n.kind != 'stmt' or lab == 'exc':
+                continue
+            a = n.ast
+            if isinstance(a, ast.Assign):
+                for t in a.targets:
+                    if attr_chain(t) == chain:
+                        found = (idx, a.value)
+                    elif isinstance(t, (ast.Tuple, ast.List)) and isinstance(a.value, (ast.Tuple, ast.List)) and len(t.elts) == len(a.value.elts):
+                        for te, ve in zip(t.elts, a.value.elts):
+                            if attr_chain(te) == chain:
+                                found = (idx, ve)
+            elif isinstance(a, ast.AnnAssign) and a.value is not None and attr_chain(a.target) == chain:
+                found = (idx, a.value)
+        if found is None:
+            return None
+        return found[0], self.value(found[1], found[0])
+
 
 def strip_wrappers(e: ast.AST, wrappers: Tuple[str, ...] = ('memoryview', 'bytes', 'bytearray', 'text_', 'bytes_', 'cast')) -> ast.AST:
     """Peel value-preserving wrappers: memoryview(x), bytes(x), x.tobytes(), text_(x), cast(T, x)."""
